@@ -502,8 +502,20 @@ def run_program(prog, env_factory=None, resources=None):
     if prog.get("fl"):
         m.fl = {"delays": list(prog["fl"]["delays"]), "untils": list(prog["fl"]["untils"])}
     patch_until_registration(m)
+    import signal
+
+    def _hang(signum, frame):
+        raise TimeoutError("no progress")
+    old_handler = signal.signal(signal.SIGALRM, _hang)
+    signal.setitimer(signal.ITIMER_REAL, 60)
     try:
-        m.run_plan()
+        try:
+            m.run_plan()
+        except TimeoutError:
+            m.log.append({"k": "X", "p": 0, "t": -1, "ok": False, "v": V("Hang")})      # a kernel that spins is an observable outcome
+        finally:
+            signal.setitimer(signal.ITIMER_REAL, 0)
+            signal.signal(signal.SIGALRM, old_handler)
         if m.fl is not None:
             log, ftab = rankify(m.log, m.fl)
             return {"log": log, "names": m.names, "ftab": ftab, "fl": m.fl, "final": m.final_state()}
